@@ -17,6 +17,12 @@ func init() {
 
 // existsScan checks a bool function of the form `for x in over { if conj… { return true } } return false`.
 func existsScan(c *Ctx, r *R, key string, fn *ssa.Function, over eng.Pat, conj []eng.Pat, what string) {
+	existsScanT(c, r, key, fn, over, conj, what, nil)
+}
+
+// existsScanT additionally requires that each element is put to the test: from the loop body's
+// entry the next element is reached only through one of the instructions in tests.
+func existsScanT(c *Ctx, r *R, key string, fn *ssa.Function, over eng.Pat, conj []eng.Pat, what string, tests []ssa.Instruction) {
 	heads := eng.LoopsOver(fn, over)
 	if len(heads) != 1 {
 		r.Bad(key+":scan", fn.Pos(), "%s: expected exactly one loop over the scanned collection, found %d", what, len(heads))
@@ -102,6 +108,20 @@ func existsScan(c *Ctx, r *R, key string, fn *ssa.Function, over eng.Pat, conj [
 		if p != nil {
 			okF = false
 		}
+	}
+	if tests != nil {
+		okE := true
+		hd := head.Instrs[len(head.Instrs)-1]
+		for i, s := range head.Succs {
+			if !loop[s] {
+				continue
+			}
+			_ = i
+			if p := eng.FindPath(s, 0, func(in ssa.Instruction) bool { return in == hd }, eng.NewCut().AddInstrs(tests...)); p != nil {
+				okE = false
+			}
+		}
+		r.Check(okE, key+":every-element-tested", fn.Pos(), what+": every element is put to the test", what+": an element can be passed over without being tested (a filter sits in front of the test)")
 	}
 	r.Check(okT && nT >= 1, key+":true-only-if", fn.Pos(), what+": true is returned only where the condition holds for an element", what+": `true` can be returned without the element condition holding (condition dropped, weakened or inverted)")
 	r.Check(okF && nF >= 1, key+":false-only-after-all", fn.Pos(), what+": false is returned only after every element was examined", what+": `false` can be returned (or the scan left) before every element was examined")
